@@ -115,6 +115,18 @@ def shape(rng, kind, size):
         lst = g.fslist([rng.choice(ns + [None]) for _ in range(size)])
         g.set(owner, "slst", {"r": lst}); g.set(o2, "slst", {"r": lst}); g.set(owner, "l", {"r": o2})
         g.add(owner)
+    elif kind == "cyclic_shared_list":
+        # a shared FSList (multipleReferencesAllowed) whose spine runs into a cycle: back to the first node (size even) or to a
+        # later node, so that the cycle does not pass through the first node (size odd); an owner with the same list inline is
+        # NOT generated: cyclic inline spines cannot be written (side condition of C01)
+        ns = [g.node() for _ in range(max(1, size // 3))]
+        nodes = [g.sb.fs_new(g.ts, "uima.cas.NonEmptyFSList", {"head": {"r": rng.choice(ns)}}) for _ in range(max(2, size))]
+        for i in range(len(nodes) - 1):
+            g.set(nodes[i], "tail", {"r": nodes[i + 1]})
+        g.set(nodes[-1], "tail", {"r": nodes[0] if size % 2 == 0 else nodes[1]})
+        owner = g.node(); o2 = g.node()
+        g.set(owner, "slst", {"r": nodes[0]}); g.set(o2, "slst", {"r": nodes[len(nodes) // 2]}); g.set(owner, "l", {"r": o2})
+        g.add(owner)
     elif kind == "deep_types":
         a = g.node(ty=g.chain[-1]); b = g.node(ty=g.chain[len(g.chain) // 2])
         g.set(a, "l", {"r": b})
@@ -217,6 +229,7 @@ def run(ctx, out, budget):
                         ("arrays", [0, 3, 30] if q else [0, 1, 3, 30, 300]),
                         ("inline_list", [0, 1, 12, 300] if q else [0, 1, 12, 300, 1000, 5000]),
                         ("shared_list", [0, 5, 300] if q else [0, 5, 300, 1000, 5000]),
+                        ("cyclic_shared_list", [2, 3, 4, 5, 41] if q else [2, 3, 4, 5, 40, 41, 500, 501]),
                         ("deep_types", [30] if q else [30, 60]),
                         ("type_diamonds", [3, 45] if q else [3, 20, 45, 80]),
                         ("random", [3, 8, 20] * nrand)):
